@@ -372,9 +372,9 @@ def fmtOut (o : Nat × Out) : String :=
   | .raised e => s!"{t} raised {e.name}"
   | .queued d e => s!"{t} queued {fmtDest d} {fmtEntry e}"
 
-def taskName (s : Stack) (tid : Nat) : String :=
+def taskName (s : Stack) (tid : Tid) : String :=
   match s.getTask tid with
-  | some t => (match t.kind with | .offer _ => "task:_offer_task" | .find => "task:send_find_services" | .subscribe => "task:_subscribe")
+  | some _ => (match tid.1 with | .offer _ => "task:_offer_task" | .find => "task:send_find_services" | .subscribe => "task:_subscribe")
   | none => "task:?"
 
 def cbName (s : Stack) : Cb → String
